@@ -191,6 +191,9 @@ def run(ck):
         variants = [('XYXYMatch', pr['ref'], pr['im'], None, None),
                     ('XYXYMatch-permuted', [pr['ref'][i] for i in s_ref], [pr['im'][i] for i in s_im], s_ref, s_im),
                     ('match2ref', None, None, None, None)]
+        if t % 4 == 1:
+            # the deprecated but documented calling form: catalogs with RA/DEC and x/y plus tp_wcs
+            variants.append(('XYXYMatch-tp_wcs', None, None, None, None))
         results = {}
         for name, refxy, imxy, sr_, si_ in variants:
             m = XYXYMatch(searchrad=pr['sr'], separation=pr['sep'], tolerance=pr['tol'], use2dhist=pr['use2d'],
@@ -206,6 +209,19 @@ def run(ck):
                     nm, ri, ii = g.match2ref(ref, match=m)
                     if nm != len(ri):
                         raise AssertionError('nmatches != len(mref_idx)')
+                elif name == 'XYXYMatch-tp_wcs':
+                    import warnings
+                    g, ref, corr = build_group(Corr, pr)
+                    refxy = list(zip(np.asarray(ref.catalog['TPx'], dtype=float).tolist(),
+                                     np.asarray(ref.catalog['TPy'], dtype=float).tolist()))
+                    imxy = list(zip(np.asarray(g.catalog['TPx'], dtype=float).tolist(),
+                                    np.asarray(g.catalog['TPy'], dtype=float).tolist()))
+                    pscale_used = pr['p']
+                    rt = Table([np.asarray(ref.catalog['RA']), np.asarray(ref.catalog['DEC'])], names=('RA', 'DEC'))
+                    it = Table([[v[0] for v in pr['impx']], [v[1] for v in pr['impx']]], names=('x', 'y'))
+                    with warnings.catch_warnings():
+                        warnings.simplefilter('ignore')
+                        ri, ii = m(rt, it, tp_pscale=pr['p'], tp_units='u', tp_wcs=corr)
                 else:
                     pscale_used = pr['p']
                     rt = Table([[v[0] for v in refxy], [v[1] for v in refxy]], names=('TPx', 'TPy'))
@@ -253,7 +269,7 @@ def run(ck):
                 ck.sample({k2: rp[k2] for k2 in ('call', 'refxy(rows as passed)', 'imxy(rows as passed)', 'impl_ref_idx',
                                                  'impl_input_idx')}, limit=3)
         # the set of matched sources must not depend on the row order / entry point
-        if len(results) == 3 and not (results['XYXYMatch'] == results['XYXYMatch-permuted'] == results['match2ref']):
+        if len(results) >= 3 and len(set(map(frozenset, results.values()))) != 1:
             ck.violation({'kind': 'set of matched sources depends on the row order or entry point', 'problem': slim(pr),
                           'results': {k2: sorted(v) for k2, v in results.items()}})
     # one matcher object used for a HISTORY of calls (as the shared default matcher of align_wcs is): catalogs of the
